@@ -357,8 +357,17 @@ impl DiskStruct for Trks {
         8 + u32::from_le_bytes(self.size) as usize
     }
     fn update_from_bytes(&mut self,bytes: &[u8]) -> Result<(),DiskStructError> {
+        // the chunk holds the 160 track descriptors at the least, its size field need not say so
+        if bytes.len() < 1288 {
+            error!("WOZ TRKS chunk is too short");
+            return Err(DiskStructError::OutOfData);
+        }
         self.id = [bytes[0],bytes[1],bytes[2],bytes[3]];
         self.size = [bytes[4],bytes[5],bytes[6],bytes[7]];
+        if u32::from_le_bytes(self.size) < 1280 {
+            error!("WOZ TRKS chunk is too short");
+            return Err(DiskStructError::OutOfData);
+        }
         self.tracks = Vec::new();
         self.bits = Vec::new();
         for track in 0..160 {
